@@ -142,7 +142,12 @@ theorem agree_any {env : Env} (hflt : env.flt = false) (cfg' : FromValue.Cfg) (h
     rcases hsep with rfl | ⟨c, tl, rfl, hc⟩
     · cases hr
     · cases hr
-      rcases hc with rfl | rfl | rfl | rfl <;> decide
+      rcases hc with rfl | rfl | rfl | rfl | hw
+      · decide
+      · decide
+      · decide
+      · decide
+      · rcases isWs_cases hw with rfl | rfl | rfl | rfl <;> decide
   obtain ⟨val, hres, hm⟩ := machine_complete_pad (valEnv env) t (T ext v) _ (T_derives ext hext v hv) hside hsideU rest pos hfollow
   have hc := SJ.Proofs.RoundTrip.canonM_image (unlim (valEnv env)).cfg ext hext v hsU hFU
   have := hres.1 rfl
